@@ -21,6 +21,9 @@ UniverseSquare == << <<2, 0, 0>>, <<2, 1, 0>>, <<2, 0, 1>>, <<2, 1, 1>> >>
 ListsPlain3 == { <<"none", "none", "none">> }
 Lists2 == { <<a, b>> : a \in Codec, b \in Codec }
 Lists2Quick == { <<"none", "none">>, <<"gzip", "gzip">>, <<"none", "gzip">>, <<"gzip", "brotli">>, <<"brotli", "none">> }
+\* four sources (the upper end of the property's "lists of 2..4 sources") over a three-coordinate universe
+UniverseThree == << <<2, 1, 1>>, <<6, 31, 5>>, <<6, 32, 5>> >>
+Lists4 == { <<"none", "gzip", "brotli", "none">>, <<"gzip", "gzip", "gzip", "gzip">>, <<"none", "none", "gzip", "brotli">> }
 Lists3 == { <<"none", "gzip", "brotli">>, <<"gzip", "gzip", "gzip">>, <<"brotli", "none", "none">> }
 
 \* payload id of coordinate i in source k: 100 * k + i  (so the winning source is visible)
